@@ -1,0 +1,149 @@
+// SPDX-License-Identifier: MIT
+
+#ifndef _URCU_VERIF_H
+#define _URCU_VERIF_H
+
+/*
+ * Verification hook points. Everything in this file is compiled only when
+ * URCU_VERIF is defined; production builds never include it. A hook point is
+ * a call through a weak symbol: when no monitor is linked in, it is a test
+ * of a NULL function address and nothing else.
+ */
+
+#ifdef URCU_VERIF
+
+#ifdef __cplusplus
+extern "C" {
+#endif
+
+enum urcu_verif_point_id {
+	URCU_VP_NONE = 0,
+
+	/* wfcqueue */
+	URCU_VP_WFCQ_APPEND_MID,	/* after tail xchg, before next store */
+	URCU_VP_WFCQ_DEQ_BEFORE_CMPXCHG,/* head.next re-init done, tail cmpxchg next */
+	URCU_VP_WFCQ_DEQ_CMPXCHG_FAILED,/* marker: enqueue slipped in */
+	URCU_VP_WFCQ_DEQ_NB_RESTORE,	/* marker: nonblocking restore path */
+	URCU_VP_WFCQ_SPLICE_MID,	/* between head xchg and tail xchg */
+	URCU_VP_WFCQ_SPLICE_NULL_HEAD,	/* marker: head NULL but tail moved */
+	URCU_VP_WFCQ_BUSY_WAIT,		/* marker: one busy-wait iteration */
+	URCU_VP_WFCQ_SYNC_NEXT_WAIT,	/* marker: consumer saw NULL next */
+
+	/* legacy wfqueue */
+	URCU_VP_WFQ_ENQ_MID,
+	URCU_VP_WFQ_DEQ_DUMMY,		/* marker: dummy re-enqueued */
+
+	/* wfstack */
+	URCU_VP_WFS_PUSH_MID,		/* after head xchg, before next store */
+	URCU_VP_WFS_POP_BEFORE_CMPXCHG,
+	URCU_VP_WFS_POP_CMPXCHG_FAILED,	/* marker */
+	URCU_VP_WFS_SYNC_NEXT_WAIT,	/* marker: saw NULL next */
+
+	/* lfstack / rculfstack */
+	URCU_VP_LFS_PUSH_BEFORE_CMPXCHG,
+	URCU_VP_LFS_PUSH_RETRY,		/* marker */
+	URCU_VP_LFS_POP_BEFORE_CMPXCHG,	/* between next load and cmpxchg */
+	URCU_VP_LFS_POP_RETRY,		/* marker */
+
+	/* rculfqueue */
+	URCU_VP_LFQ_ENQ_LINKED,		/* node linked, tail not yet advanced */
+	URCU_VP_LFQ_ENQ_HELPED,		/* marker: advanced somebody's tail */
+	URCU_VP_LFQ_DEQ_BEFORE_CMPXCHG,
+	URCU_VP_LFQ_DEQ_RETRY,		/* marker */
+	URCU_VP_LFQ_DEQ_DUMMY,		/* marker: dummy dequeued and freed */
+
+	/* read side */
+	URCU_VP_READ_LOCK_MID,		/* gp.ctr loaded, reader word not yet stored */
+	URCU_VP_READ_UNLOCK_PRE_WAKE,	/* reader word stored, futex not yet tested */
+	URCU_VP_WAKE_GP_MID,		/* wake_up_gp: futex seen -1, before store 0 */
+	URCU_VP_WAKE_GP_PRE_SYSCALL,	/* wake_up_gp: stored 0, before FUTEX_WAKE */
+	URCU_VP_QSBR_QS_PRE_WAKE,	/* qsbr: ctr stored, before waiting test */
+
+	/* grace period */
+	URCU_VP_GP_MERGED,		/* marker: caller merged with another GP */
+	URCU_VP_GP_LEADER_PRE_LOCK,	/* leader before rcu_gp_lock */
+	URCU_VP_GP_WAITERS_MOVED,	/* after urcu_move_waiters */
+	URCU_VP_GP_PRE_FLIP,
+	URCU_VP_GP_POST_FLIP,
+	URCU_VP_GP_PRE_WAKE_WAITERS,
+	URCU_VP_GP_SCAN_AFTER_DEC,	/* futex decremented + barrier, before scan */
+	URCU_VP_GP_ACTIVE_OLD,		/* marker: a reader was ACTIVE_OLD */
+	URCU_VP_GP_REGISTRY_UNLOCKED,	/* registry lock dropped between scans */
+	URCU_VP_GP_PRE_SLEEP,		/* wait_gp: before futex wait loop */
+	URCU_VP_GP_REGISTER,		/* inside registry lock */
+	URCU_VP_GP_UNREGISTER,		/* inside registry lock */
+	URCU_VP_BP_ADD_THREAD,		/* marker */
+	URCU_VP_BP_ARENA_NEW_CHUNK,	/* marker */
+	URCU_VP_BP_ARENA_IN_PLACE,	/* marker */
+
+	/* urcu-wait */
+	URCU_VP_WAIT_WAKER_MID,		/* WAKEUP stored, before RUNNING test */
+	URCU_VP_WAIT_WAKER_PRE_TEARDOWN,
+	URCU_VP_WAIT_WAITER_PRE_FUTEX,
+	URCU_VP_WAIT_WAITER_PRE_RUNNING,
+
+	/* call_rcu */
+	URCU_VP_CRCU_ENQUEUED,		/* enqueued, before wake */
+	URCU_VP_CRCU_HELPER_SPLICED,	/* spliced, before synchronize_rcu */
+	URCU_VP_CRCU_HELPER_PRE_SLEEP,	/* futex decremented, before re-check */
+	URCU_VP_CRCU_HELPER_PAUSE,	/* marker */
+	URCU_VP_CRCU_HELPER_STOP,	/* marker */
+	URCU_VP_CRCU_FREE_STOPPED,	/* helper stopped, before hand-over */
+	URCU_VP_CRCU_FREE_HANDOVER,	/* marker: callbacks handed over */
+	URCU_VP_CRCU_BARRIER_QUEUED,	/* marker: barrier markers queued */
+	URCU_VP_CRCU_BARRIER_PRE_WAIT,
+	URCU_VP_CRCU_BARRIER_WAKE,	/* completion wake */
+
+	/* defer_rcu */
+	URCU_VP_DEFER_FULL_FLUSH,	/* marker: queue full, flushing */
+	URCU_VP_DEFER_HEAD_PUBLISHED,	/* head stored, before wake */
+	URCU_VP_DEFER_WAIT_AFTER_DEC,	/* reclaimer: futex dec, before re-check */
+	URCU_VP_DEFER_THR_BATCH,	/* marker: reclaimer batch */
+
+	/* poll */
+	URCU_VP_POLL_CB_ENTRY,		/* worker callback, after GP before lock */
+	URCU_VP_POLL_START_ACTIVE,	/* marker */
+	URCU_VP_POLL_START_IDLE,	/* marker */
+
+	/* rculfhash */
+	URCU_VP_HT_ADD_BEFORE_CMPXCHG,
+	URCU_VP_HT_ADD_RETRY,		/* marker */
+	URCU_VP_HT_ADD_GC_HELP,		/* marker */
+	URCU_VP_HT_DEL_FLAGGED,		/* REMOVED set, before gc */
+	URCU_VP_HT_DEL_BEFORE_OWNER,	/* gc done, before owner xchg */
+	URCU_VP_HT_DEL_LOST_OWNER,	/* marker */
+	URCU_VP_HT_REPLACE_BEFORE_CMPXCHG,
+	URCU_VP_HT_REPLACE_RETRY,	/* marker */
+	URCU_VP_HT_GC_BEFORE_UNLINK,
+	URCU_VP_HT_GROW_BEFORE_PUBLISH,	/* level populated, size not published */
+	URCU_VP_HT_SHRINK_BEFORE_GP,	/* size shrunk, before grace period */
+	URCU_VP_HT_SHRINK_BEFORE_REMOVE,
+	URCU_VP_HT_SHRINK_BEFORE_FREE,
+	URCU_VP_HT_RESIZE_LOOP,		/* marker: _do_cds_lfht_resize iteration */
+	URCU_VP_HT_LAZY_RESIZE,		/* marker: lazy resize launched */
+	URCU_VP_HT_PARTITION_THREADS,	/* marker: partitioned path taken */
+	URCU_VP_HT_LOOKUP_STEP,		/* marker: one chain step in lookup */
+
+	/* workqueue */
+	URCU_VP_WQ_PRE_SLEEP,
+	URCU_VP_WQ_PAUSE,		/* marker */
+
+	URCU_VP_NR_POINTS
+};
+
+extern void urcu_verif_hook_fn(int point, const void *ctx)
+	__attribute__((__weak__));
+
+#define urcu_verif_point(id, ctx)				\
+	do {							\
+		if (urcu_verif_hook_fn)				\
+			urcu_verif_hook_fn((id), (ctx));	\
+	} while (0)
+
+#ifdef __cplusplus
+}
+#endif
+
+#endif /* URCU_VERIF */
+
+#endif /* _URCU_VERIF_H */
